@@ -108,6 +108,9 @@ def sources(tier, seed, ctx):
     for depth in ([1500] if tier == 'quick' else [1500, 4000]):
         srcs.append({'k': 'evaldeep', 'depth': depth})
         srcs.append({'k': 'evaldeep', 'depth': depth, 'rev': True})
+    # many inputs: tables of 512 .. 4096 rows through every entry point
+    for ni in ([9, 11] if tier == 'quick' else [9, 10, 11, 12]):
+        srcs.append({'k': 'evaldeep', 'wide': ni})
     return srcs
 
 
@@ -303,6 +306,27 @@ def record(src):
             except Exception:
                 pass
         return {'kind': 'eval', 'c': project(c), 'obs': observe_eval(c), 'src': src}
+    if src['k'] == 'evaldeep' and src.get('wide'):
+        # many inputs (beyond 8): a parity / majority-like mix over all of them, every gate compared
+        ni = src['wide']
+        c = Circuit()
+        ins = [f'x{j}' for j in range(ni)]
+        c.add_inputs(ins)
+        order = list(ins)
+        types = [G.XOR, G.AND, G.OR, G.NXOR, G.GT, G.NAND]
+        prev = ins[0]
+        for k in range(1, ni):
+            lab = f'w{k}'
+            c.emplace_gate(lab, types[k % len(types)], (prev, ins[k]))
+            prev = lab
+            order.append(lab)
+        c.emplace_gate('top', G.XOR, tuple(ins))          # one gate reading every input
+        c.emplace_gate('mix', G.AND, ('top', prev, ins[-1]))
+        order += ['top', 'mix']
+        c.set_outputs(['mix', 'top', prev, ins[ni // 2]])
+        sample = list(order)
+        return {'kind': 'evaldeep', 'c': project(c, users=False, blocks=False), 'order': order, 'sample': sample,
+                'obs': observe_eval(c, sample=sample), 'src': src}
     if src['k'] == 'evaldeep':
         n = src['depth']
         c = Circuit()
